@@ -283,4 +283,23 @@ CHECKS = {
         note="Not decided: sufficiency of the up-/down-check refinement for "
              "functional equivalence on every table (an induction over merge "
              "sequences); which members _refine_downcheck chooses to drop."),
+    "C10": dict(
+        technique="dominance / must-pass-through analysis of table "
+                  "generation and loading, struct-format slot comparison "
+                  "between writer and reader, bit-provenance of the route "
+                  "and command words, constant folding of the Routes enum",
+        text="routing_tree_to_tables builds RoutingTableEntry(outs, key, "
+             "mask, ins), raises MultisourceRouteError exactly on same "
+             "key/mask with different outs, always adds the arrival "
+             "direction (None included) on the merge path; traverse never "
+             "leaves the child loop early, adds every non-None direction and "
+             "enqueues every sub-tree (R1). Loading: allocate -> raise on "
+             "zero base before any write -> write staging buffer -> router "
+             "load, all addressed to the caller's chip (R2). 16-byte record "
+             "(index, 0, route, key, mask) at i*16; reader slots coincide; "
+             "route word = OR of 1<<r; reader tests bit r of the unmodified "
+             "word for all 24 Routes; command words count<<16|app_id<<8|op "
+             "(R3). Read-back of 1024 records cut with the same size (R4).",
+        note="Not decided: SC&MP's behaviour; that count/app_id fit their "
+             "documented field widths."),
 }
